@@ -55,9 +55,9 @@ class AnyGamma:
 
 
 def proj(H, g):
-    if isinstance(H, xgi.DiHypergraph):
-        return dhg.proj(H, g)
-    return hg.proj(H, g)
+    j, anom = dhg.proj(H, g) if isinstance(H, xgi.DiHypergraph) else hg.proj(H, g)
+    j["uid"] = min(j["uid"], 10 ** 6)  # far beyond every id of the abstract universe either way (TLC integers are 32 bit)
+    return j, anom
 
 
 def sources(j, g, tmpdir, rng):
@@ -198,6 +198,41 @@ def generator_sources(seed_):
     ]
 
 
+def special_id_sources():
+    """explicit ids of unusual numeric kinds (and values where number ranges end): the counter must still end
+    up beyond them, in every class"""
+    specials = [("2**53+1", 2 ** 53 + 1), ("time stamp in ns", 1_700_000_000_000_000_001), ("np.uint8(255)", np.uint8(255)),
+                ("np.int8(127)", np.int8(127)), ("np.uint16(65535)", np.uint16(65535)), ("1e16", 1e16), ("255.0", 255.0),
+                ("np.float32(16777216)", np.float32(16777216.0)), ("2**31-1", 2 ** 31 - 1), ("2**63-1", 2 ** 63 - 1)]
+    out = []
+    for name, val in specials:
+        def mk_h(val=val):
+            H = xgi.Hypergraph()
+            H.add_edge([1, 2])
+            H.add_edge([2, 3], idx=val)
+            return H
+
+        def mk_hb(val=val):
+            H = xgi.Hypergraph()
+            H.add_edges_from([([1, 2], 0), ([2, 3], val)])
+            return H
+
+        def mk_d(val=val):
+            H = xgi.DiHypergraph()
+            H.add_edge(([1], [2]))
+            H.add_edge(([2], [3]), idx=val)
+            return H
+
+        def mk_s(val=val):
+            S = xgi.SimplicialComplex()
+            S.add_simplex([1, 2])
+            S.add_simplex([2, 3, 4], idx=val)
+            return S
+        out += [(f"Hypergraph.add_edge(idx={name})", mk_h), (f"Hypergraph.add_edges_from(id {name})", mk_hb),
+                (f"DiHypergraph.add_edge(idx={name})", mk_d), (f"SimplicialComplex.add_simplex(idx={name})", mk_s)]
+    return out
+
+
 def follow_up(tag, how, make):
     """obtain the network, then add with automatic ids and with an explicit id that exists"""
     recs = []
@@ -269,6 +304,8 @@ def _worker(args):
     if base == 0:
         for si, (how, make) in enumerate(generator_sources(seed_)):
             out += follow_up(f"gen.{si}", how, make)
+        for si, (how, make) in enumerate(special_id_sources()):
+            out += follow_up(f"ids.{si}", how, make)
     import shutil
 
     shutil.rmtree(tmpdir, ignore_errors=True)
